@@ -239,6 +239,12 @@ pub fn fine_configs(thorough: bool) -> Vec<(String, Vec<Vec<Call>>)> {
         let (l1, l2) = (Arc::new(json!({"log": {"var": "a"}})), Arc::new(json!({"log": [{"var": "xs"}]})));
         v.push(("fine:log|log".to_string(), vec![vec![Call { rule: l1, data: d1.clone() }], vec![Call { rule: l2, data: d2.clone() }]]));
     }
+    if !thorough {
+        // two quantifiers over arrays WRITTEN in the rule whose items are operations: whatever tells "operation" from
+        // "literal" (a table built on first use) is complete before anybody relies on it - cold start included
+        let (q1, q2) = (Arc::new(json!({"all": [[{"var": "xs.0"}, {"+": [1, 1]}], {">": [{"var": ""}, 0]}]})), Arc::new(json!({"some": [[{"var": "zz"}, {"var": "c.d"}], {"===": [{"var": ""}, "cd"]}]})));
+        v.push(("fine:all-literal|some-literal".to_string(), vec![vec![Call { rule: q1, data: d1.clone() }], vec![Call { rule: q2, data: d1.clone() }]]));
+    }
     if extra.len() == 2 {
         v.push((
             format!("fine:{}|{}", extra[0].0, extra[1].0),
